@@ -14,16 +14,19 @@ Hypothesis norm_some : forall u v u', norm u v = Some u' -> app u' v = app u v.
 Record ev := { e_ver : nat; e_upd : option upd }.
 Inductive citem := CLoaded | CEvent (e : ev).                 (* wsConn.queue items for one subscription *)
 Inductive eitem := IEvent (u : upd) | ICustom | IGetResp (v : val) | IAddSub (s : nat)   (* EventSubscription.queue *)
+                 | IRemSub (s : nat)   (* ResourceSubscription.Unsubscribe *)
                  | INop (tag : nat).   (* a task that does not touch the resource: the answer to an access or call request
                                           passing through the resource's queue (Cache.sendRequest) *)
 
 Record sub := { subscribed : bool; loaded : bool; sver : nat; sval : val; flag : bool;
-                eq : list ev; sent : bool; cq : list citem }.
+                eq : list ev; sent : bool; cq : list citem;
+                gone : bool;        (* Subscription.state == stateDisposed *)
+                closed : bool }.    (* the connection is disposing: wsConn.Enqueue refuses new tasks *)
 Record st := { truth : val; answered : bool; qe : list eitem;
                rs_loaded : bool; rs_val : val; rs_ver : nat; rs_subs : list nat; subs : nat -> sub }.
 
 Definition sub0 : sub := {| subscribed := false; loaded := false; sver := 0; sval := d; flag := true;
-                            eq := []; sent := false; cq := [] |}.
+                            eq := []; sent := false; cq := []; gone := false; closed := false |}.
 Definition init (t : val) : st :=
   {| truth := t; answered := false; qe := []; rs_loaded := false; rs_val := d; rs_ver := 0;
      rs_subs := []; subs := fun _ => sub0 |}.
@@ -31,10 +34,20 @@ Definition init (t : val) : st :=
 Definition set_sub (f : nat -> sub) (s : nat) (x : sub) : nat -> sub := fun s' => if Nat.eqb s' s then x else f s'.
 Definition push_c (x : sub) (i : citem) : sub :=
   {| subscribed := subscribed x; loaded := loaded x; sver := sver x; sval := sval x; flag := flag x;
-     eq := eq x; sent := sent x; cq := cq x ++ [i] |}.
+     eq := eq x; sent := sent x; cq := cq x ++ [i]; gone := gone x; closed := closed x |}.
 Definition mem (s : nat) (l : list nat) : bool := existsb (Nat.eqb s) l.
+(* fan-out to the subscribers; a closing connection refuses the task (wsConn.Enqueue returns false) *)
 Definition push_all (f : nat -> sub) (l : list nat) (i : citem) : nat -> sub :=
-  fun s => if mem s l then push_c (f s) i else f s.
+  fun s => if mem s l && negb (closed (f s)) then push_c (f s) i else f s.
+(* Subscription.Loaded on a closing connection: the subscriber is released at once *)
+Definition refused (f : nat -> sub) (l : list nat) : list eitem :=
+  map IRemSub (filter (fun s => closed (f s)) l).
+Fixpoint remove_sub (s : nat) (l : list nat) : list nat :=
+  match l with [] => [] | s' :: r => if Nat.eqb s' s then remove_sub s r else s' :: remove_sub s r end.
+(* Subscription.Dispose (and wsConn.dispose when [cl]) *)
+Definition dispose (x : sub) (cl : bool) : sub :=
+  {| subscribed := subscribed x; loaded := false; sver := sver x; sval := sval x; flag := flag x;
+     eq := []; sent := sent x; cq := cq x; gone := true; closed := closed x || cl |}.
 
 (* Subscription.processEvent *)
 Definition proc (p : nat * val) (e : ev) : nat * val :=
@@ -48,6 +61,7 @@ Inductive action :=
 | SvcUpdate (u : upd) | SvcCustom | SvcAnswer
 | SvcNop (tag : nat)         (* an answer routed through the resource's queue *)
 | Subscribe (s : nat)
+| Dispose (s : nat) (cl : bool) (* the subscription is disposed (request failed / access denied); with cl the whole connection closes *)
 | RunE                       (* cache worker executes the head of the resource queue *)
 | RunC (s : nat)             (* connection worker executes the head item for subscription s *)
 | Respond (s : nat) (c : nat)(* OnReady callback: send snapshot, ReleaseRPCResources, drain up to a cut *)
@@ -59,7 +73,7 @@ Definition evs (q : list citem) : list ev :=
 
 Definition with_sub (x : sub) ver v fl q snt : sub :=
   {| subscribed := subscribed x; loaded := loaded x; sver := ver; sval := v; flag := fl;
-     eq := q; sent := snt; cq := cq x |}.
+     eq := q; sent := snt; cq := cq x; gone := gone x; closed := closed x |}.
 
 (* drain the first c queued events; if some remain queueing is on again *)
 Definition drain (x : sub) (c : nat) : sub :=
@@ -87,21 +101,36 @@ Definition step (σ : st) (a : action) : st :=
       if subscribed (subs σ s) then σ else
       let x := subs σ s in
       let x' := {| subscribed := true; loaded := loaded x; sver := sver x; sval := sval x; flag := flag x;
-                   eq := eq x; sent := sent x; cq := cq x |} in
+                   eq := eq x; sent := sent x; cq := cq x; gone := gone x; closed := closed x |} in
       {| truth := truth σ; answered := answered σ; qe := qe σ ++ [IAddSub s];
          rs_loaded := rs_loaded σ; rs_val := rs_val σ; rs_ver := rs_ver σ; rs_subs := rs_subs σ;
          subs := set_sub (subs σ) s x' |}
+  | Dispose s cl =>
+      let x := subs σ s in
+      if gone x then
+        (if cl then {| truth := truth σ; answered := answered σ; qe := qe σ; rs_loaded := rs_loaded σ; rs_val := rs_val σ;
+                       rs_ver := rs_ver σ; rs_subs := rs_subs σ; subs := set_sub (subs σ) s (dispose x true) |} else σ)
+      else
+      {| truth := truth σ; answered := answered σ;
+         qe := if loaded x then qe σ ++ [IRemSub s] else qe σ;
+         rs_loaded := rs_loaded σ; rs_val := rs_val σ; rs_ver := rs_ver σ; rs_subs := rs_subs σ;
+         subs := set_sub (subs σ) s (dispose x cl) |}
   | RunE =>
       match qe σ with
       | [] => σ
       | IGetResp v :: q =>
-          {| truth := truth σ; answered := answered σ; qe := q;
+          {| truth := truth σ; answered := answered σ; qe := q ++ refused (subs σ) (rs_subs σ);
              rs_loaded := true; rs_val := v; rs_ver := 0; rs_subs := rs_subs σ;
              subs := push_all (subs σ) (rs_subs σ) CLoaded |}
       | IAddSub s :: q =>
-          {| truth := truth σ; answered := answered σ; qe := q;
+          {| truth := truth σ; answered := answered σ;
+             qe := if rs_loaded σ && closed (subs σ s) then q ++ [IRemSub s] else q;
              rs_loaded := rs_loaded σ; rs_val := rs_val σ; rs_ver := rs_ver σ; rs_subs := s :: rs_subs σ;
-             subs := if rs_loaded σ then set_sub (subs σ) s (push_c (subs σ s) CLoaded) else subs σ |}
+             subs := if rs_loaded σ && negb (closed (subs σ s)) then set_sub (subs σ) s (push_c (subs σ s) CLoaded) else subs σ |}
+      | IRemSub s :: q =>
+          {| truth := truth σ; answered := answered σ; qe := q;
+             rs_loaded := rs_loaded σ; rs_val := rs_val σ; rs_ver := rs_ver σ; rs_subs := remove_sub s (rs_subs σ);
+             subs := subs σ |}
       | IEvent u :: q =>
           if rs_loaded σ then
             match norm u (rs_val σ) with
@@ -129,23 +158,30 @@ Definition step (σ : st) (a : action) : st :=
       match cq x with
       | [] => σ
       | CLoaded :: q =>
+          if gone x then
+            (* disposed before it was loaded: release the subscriber now *)
+            {| truth := truth σ; answered := answered σ; qe := qe σ ++ [IRemSub s]; rs_loaded := rs_loaded σ; rs_val := rs_val σ;
+               rs_ver := rs_ver σ; rs_subs := rs_subs σ;
+               subs := set_sub (subs σ) s {| subscribed := subscribed x; loaded := false; sver := sver x; sval := sval x; flag := flag x;
+                                             eq := eq x; sent := sent x; cq := q; gone := gone x; closed := closed x |} |}
+          else
           (* Loaded + setModel: snapshot value and version together, start queueing *)
           let x' := {| subscribed := subscribed x; loaded := true; sver := rs_ver σ; sval := rs_val σ; flag := true;
-                       eq := []; sent := false; cq := q |} in
+                       eq := []; sent := false; cq := q; gone := gone x; closed := closed x |} in
           {| truth := truth σ; answered := answered σ; qe := qe σ; rs_loaded := rs_loaded σ; rs_val := rs_val σ;
              rs_ver := rs_ver σ; rs_subs := rs_subs σ; subs := set_sub (subs σ) s x' |}
       | CEvent e :: q =>
           let x' :=
             if negb (loaded x) then                       (* resourceSub == nil: discard *)
               {| subscribed := subscribed x; loaded := false; sver := sver x; sval := sval x; flag := flag x;
-                 eq := eq x; sent := sent x; cq := q |}
+                 eq := eq x; sent := sent x; cq := q; gone := gone x; closed := closed x |}
             else if flag x then                           (* queueFlag != 0: hold *)
               {| subscribed := subscribed x; loaded := true; sver := sver x; sval := sval x; flag := true;
-                 eq := eq x ++ [e]; sent := sent x; cq := q |}
+                 eq := eq x ++ [e]; sent := sent x; cq := q; gone := gone x; closed := closed x |}
             else
               let '(ver, v) := proc (sver x, sval x) e in
               {| subscribed := subscribed x; loaded := true; sver := ver; sval := v; flag := false;
-                 eq := eq x; sent := sent x; cq := q |} in
+                 eq := eq x; sent := sent x; cq := q; gone := gone x; closed := closed x |} in
           {| truth := truth σ; answered := answered σ; qe := qe σ; rs_loaded := rs_loaded σ; rs_val := rs_val σ;
              rs_ver := rs_ver σ; rs_subs := rs_subs σ; subs := set_sub (subs σ) s x' |}
       end
@@ -183,24 +219,40 @@ Definition is_get (i : eitem) := match i with IGetResp _ => true | _ => false en
 Definition is_add (s : nat) (i : eitem) := match i with IAddSub s' => Nat.eqb s' s | _ => false end.
 Definition is_ld (i : citem) := match i with CLoaded => true | _ => false end.
 Definition cnt {A} (f : A -> bool) (l : list A) := length (filter f l).
+Definition is_rem (s : nat) (i : eitem) := match i with IRemSub s' => Nat.eqb s' s | _ => false end.
 
+(* The life of subscription s on the cache side: IAddSub s pending in qe -> member of rs_subs ->
+   (IRemSub s pending in qe, still a member) -> removed.  i3/i3g account for the first two stages, and i4 says that
+   for a member of a loaded resource exactly one of these holds: its CLoaded is still in its connection queue, it is
+   loaded, or its release IRemSub is pending in qe. *)
 Record Inv (σ : st) : Prop := {
   i1 : pend (qe σ) (if rs_loaded σ then Some (rs_val σ) else None) = (if answered σ then Some (truth σ) else None);
   i2 : cnt is_get (qe σ) + b2n (rs_loaded σ) = b2n (answered σ);
-  i3 : forall s, cnt (is_add s) (qe σ) + b2n (mem s (rs_subs σ)) = b2n (subscribed (subs σ s));
-  i4 : forall s, cnt is_ld (cq (subs σ s)) + b2n (loaded (subs σ s)) = b2n (mem s (rs_subs σ) && rs_loaded σ);
+  i3 : forall s, gone (subs σ s) = false ->
+         cnt (is_add s) (qe σ) + b2n (mem s (rs_subs σ)) = b2n (subscribed (subs σ s));
+  i3g : forall s, cnt (is_add s) (qe σ) + b2n (mem s (rs_subs σ)) <= b2n (subscribed (subs σ s));
+  i4 : forall s, cnt is_ld (cq (subs σ s)) + b2n (loaded (subs σ s)) + cnt (is_rem s) (qe σ)
+                 = b2n (mem s (rs_subs σ) && rs_loaded σ);
   i5 : forall s, loaded (subs σ s) = true ->
          replay (sver (subs σ s), sval (subs σ s)) (eq (subs σ s) ++ evs (cq (subs σ s))) = (rs_ver σ, rs_val σ);
   i6 : forall s e, In e (evs (cq (subs σ s))) -> e_upd e <> None -> e_ver e < rs_ver σ;
   i7 : forall s, loaded (subs σ s) = false -> eq (subs σ s) = [];
   i8 : forall s, flag (subs σ s) = false -> eq (subs σ s) = [];
-  i9 : rs_loaded σ = false -> forall s, cq (subs σ s) = []
+  i9 : rs_loaded σ = false -> forall s, cq (subs σ s) = [];
+  igl : forall s, gone (subs σ s) = true -> loaded (subs σ s) = false;
+  icg : forall s, closed (subs σ s) = true -> gone (subs σ s) = true;
+  irm : forall s, gone (subs σ s) = false -> cnt (is_rem s) (qe σ) = 0;
+  ind : NoDup (rs_subs σ)
 }.
 
 Lemma cnt_app {A} (f : A -> bool) l1 l2 : cnt f (l1 ++ l2) = cnt f l1 + cnt f l2.
 Proof. unfold cnt. rewrite filter_app, app_length. reflexivity. Qed.
+Lemma cnt_cons {A} (f : A -> bool) a l : cnt f (a :: l) = b2n (f a) + cnt f l.
+Proof. unfold cnt. cbn [filter]. destruct (f a); reflexivity. Qed.
 Lemma pend_app q i b : pend (q ++ [i]) b = pstep (pend q b) i.
 Proof. unfold pend. rewrite fold_left_app. reflexivity. Qed.
+Lemma pend_app' q1 q2 b : pend (q1 ++ q2) b = pend q2 (pend q1 b).
+Proof. unfold pend. apply fold_left_app. Qed.
 Lemma replay_app p l1 l2 : replay p (l1 ++ l2) = replay (replay p l1) l2.
 Proof. unfold replay. apply fold_left_app. Qed.
 Lemma evs_app q1 q2 : evs (q1 ++ q2) = evs q1 ++ evs q2.
@@ -211,8 +263,64 @@ Proof. unfold set_sub. rewrite Nat.eqb_refl. reflexivity. Qed.
 Lemma set_sub_neq f s x s' : s' <> s -> set_sub f s x s' = f s'.
 Proof. unfold set_sub. intros H. apply Nat.eqb_neq in H. rewrite H. reflexivity. Qed.
 
+(* ---- membership, removal, refused releases ---- *)
+Lemma mem_cons s s0 l : mem s (s0 :: l) = Nat.eqb s s0 || mem s l.
+Proof. reflexivity. Qed.
+Lemma mem_In s l : mem s l = true <-> In s l.
+Proof.
+  unfold mem. rewrite existsb_exists. split.
+  - intros (x & Hx & E). apply Nat.eqb_eq in E. subst. exact Hx.
+  - intros H. exists s. split; [exact H|apply Nat.eqb_refl].
+Qed.
+Lemma mem_remove_same s l : mem s (remove_sub s l) = false.
+Proof.
+  induction l as [|a l IH]; [reflexivity|]. cbn [remove_sub]. destruct (Nat.eqb a s) eqn:E; [exact IH|].
+  rewrite mem_cons, IH, Nat.eqb_sym, E. reflexivity.
+Qed.
+Lemma mem_remove_other s s0 l : s <> s0 -> mem s (remove_sub s0 l) = mem s l.
+Proof.
+  intros Hne. induction l as [|a l IH]; [reflexivity|]. cbn [remove_sub]. destruct (Nat.eqb a s0) eqn:E.
+  - apply Nat.eqb_eq in E. subst a. rewrite mem_cons.
+    assert (E : Nat.eqb s s0 = false) by (apply Nat.eqb_neq; exact Hne). rewrite E. exact IH.
+  - rewrite !mem_cons, IH. reflexivity.
+Qed.
+Lemma In_remove s s0 l : In s (remove_sub s0 l) -> In s l.
+Proof.
+  induction l as [|a l IH]; cbn [remove_sub]; [auto|]. destruct (Nat.eqb a s0); intros H.
+  - right. auto.
+  - destruct H as [H|H]; [left; exact H|right; auto].
+Qed.
+Lemma NoDup_remove s l : NoDup l -> NoDup (remove_sub s l).
+Proof.
+  induction 1 as [|a l Hn Hd IH]; cbn [remove_sub]; [constructor|]. destruct (Nat.eqb a s); [exact IH|].
+  constructor; [|exact IH]. intros Hin. apply Hn. eapply In_remove; exact Hin.
+Qed.
+
+Lemma cnt_refused_rem f l s : NoDup l -> cnt (is_rem s) (refused f l) = b2n (mem s l && closed (f s)).
+Proof.
+  unfold refused. induction 1 as [|a l Hn Hd IH]; [reflexivity|].
+  cbn [filter]. rewrite mem_cons. destruct (Nat.eqb_spec s a) as [->|Hne].
+  - assert (Hm : mem a l = false). { destruct (mem a l) eqn:E; [|reflexivity]. apply mem_In in E. contradiction. }
+    rewrite Hm in IH. cbn [orb andb] in *. destruct (closed (f a)) eqn:Ec.
+    + cbn [map]. rewrite cnt_cons, IH. cbn [is_rem]. rewrite Nat.eqb_refl. reflexivity.
+    + exact IH.
+  - cbn [orb]. destruct (closed (f a)).
+    + cbn [map]. rewrite cnt_cons, IH. cbn [is_rem].
+      assert (E : Nat.eqb a s = false) by (apply Nat.eqb_neq; congruence). rewrite E. reflexivity.
+    + exact IH.
+Qed.
+Lemma cnt_refused_0 (g : eitem -> bool) f l : (forall s, g (IRemSub s) = false) -> cnt g (refused f l) = 0.
+Proof.
+  intros Hg. unfold refused. induction (filter (fun s => closed (f s)) l) as [|a r IH]; [reflexivity|].
+  cbn [map]. rewrite cnt_cons, Hg. exact IH.
+Qed.
+Lemma pend_refused f l b : pend (refused f l) b = b.
+Proof.
+  unfold refused, pend. induction (filter (fun s => closed (f s)) l) as [|a r IH]; [reflexivity|]. cbn. exact IH.
+Qed.
+
 Lemma init_inv t : Inv (init t).
-Proof. constructor; cbn; intros; try reflexivity; try discriminate; try contradiction. Qed.
+Proof. constructor; cbn; intros; try reflexivity; try discriminate; try contradiction; try lia; try apply NoDup_nil. Qed.
 
 (* replaying events that all target an older version changes nothing *)
 Lemma replay_stale : forall l n v,
@@ -228,7 +336,7 @@ Proof.
 Qed.
 
 Ltac inv_fields H :=
-  destruct H as [H1 H2 H3 H4 H5 H6 H7 H8 H9].
+  destruct H as [H1 H2 H3 H3g H4 H5 H6 H7 H8 H9 Hgl Hcg Hrm Hnd].
 
 Lemma b2n_le b : b2n b <= 1. Proof. destruct b; cbn; lia. Qed.
 
@@ -238,7 +346,10 @@ Proof.
   intros H; inv_fields H. constructor; cbn -[pend cnt replay evs mem]; auto.
   - rewrite pend_app, H1. destruct (answered σ); reflexivity.
   - rewrite cnt_app. cbn. lia.
-  - intros s. rewrite cnt_app. cbn. specialize (H3 s). lia.
+  - intros s Hg. rewrite cnt_app. cbn. specialize (H3 s Hg). lia.
+  - intros s. rewrite cnt_app. cbn. specialize (H3g s). lia.
+  - intros s. rewrite cnt_app. cbn. specialize (H4 s). lia.
+  - intros s Hg. rewrite cnt_app. cbn. specialize (Hrm s Hg). lia.
 Qed.
 
 Lemma inv_svc_custom σ : Inv σ -> Inv (step σ SvcCustom).
@@ -246,7 +357,10 @@ Proof.
   intros H; inv_fields H. constructor; cbn -[pend cnt replay evs mem]; auto.
   - rewrite pend_app, H1. reflexivity.
   - rewrite cnt_app. cbn. lia.
-  - intros s. rewrite cnt_app. cbn. specialize (H3 s). lia.
+  - intros s Hg. rewrite cnt_app. cbn. specialize (H3 s Hg). lia.
+  - intros s. rewrite cnt_app. cbn. specialize (H3g s). lia.
+  - intros s. rewrite cnt_app. cbn. specialize (H4 s). lia.
+  - intros s Hg. rewrite cnt_app. cbn. specialize (Hrm s Hg). lia.
 Qed.
 
 Lemma inv_svc_nop σ n : Inv σ -> Inv (step σ (SvcNop n)).
@@ -254,7 +368,10 @@ Proof.
   intros H; inv_fields H. constructor; cbn -[pend cnt replay evs mem]; auto.
   - rewrite pend_app, H1. reflexivity.
   - rewrite cnt_app. cbn. lia.
-  - intros s. rewrite cnt_app. cbn. specialize (H3 s). lia.
+  - intros s Hg. rewrite cnt_app. cbn. specialize (H3 s Hg). lia.
+  - intros s. rewrite cnt_app. cbn. specialize (H3g s). lia.
+  - intros s. rewrite cnt_app. cbn. specialize (H4 s). lia.
+  - intros s Hg. rewrite cnt_app. cbn. specialize (Hrm s Hg). lia.
 Qed.
 
 Lemma inv_svc_answer σ : Inv σ -> Inv (step σ SvcAnswer).
@@ -262,35 +379,110 @@ Proof.
   intros H. cbn [step]. destruct (answered σ) eqn:Ea; [assumption|].
   inv_fields H. rewrite Ea in *. constructor; cbn -[pend cnt replay evs mem]; auto.
   - rewrite pend_app. reflexivity.
-  - rewrite cnt_app. cbn in *. lia.
-  - intros s. rewrite cnt_app. cbn. specialize (H3 s). lia.
+  - rewrite cnt_app. change (cnt is_get [IGetResp (truth σ)]) with 1. cbn [b2n] in *. lia.
+  - intros s Hg. rewrite cnt_app. cbn. specialize (H3 s Hg). lia.
+  - intros s. rewrite cnt_app. cbn. specialize (H3g s). lia.
+  - intros s. rewrite cnt_app. cbn. specialize (H4 s). lia.
+  - intros s Hg. rewrite cnt_app. cbn. specialize (Hrm s Hg). lia.
 Qed.
+
+Ltac at_sub s s0 :=
+  destruct (Nat.eq_dec s s0) as [->|Hne]; [rewrite set_sub_eq|rewrite set_sub_neq by assumption].
 
 Lemma inv_subscribe σ s0 : Inv σ -> Inv (step σ (Subscribe s0)).
 Proof.
   intros H. cbn [step]. destruct (subscribed (subs σ s0)) eqn:Es; [assumption|].
-  inv_fields H. constructor; cbn -[pend cnt replay evs mem]; auto.
+  inv_fields H.
+  assert (Hadd : forall s, cnt (is_add s) [IAddSub s0 : eitem] = b2n (Nat.eqb s0 s)).
+  { intros s. rewrite cnt_cons. cbn. lia. }
+  pose proof (H3g s0) as H3s. rewrite Es in H3s. cbn [b2n] in H3s.
+  constructor; cbn -[pend cnt replay evs mem set_sub]; auto.
   - rewrite pend_app, H1. reflexivity.
   - rewrite cnt_app. cbn. lia.
-  - intros s. rewrite cnt_app. unfold set_sub. specialize (H3 s).
-    destruct (Nat.eqb_spec s s0) as [->|Hne].
-    + cbn -[mem]. rewrite Nat.eqb_refl. rewrite Es in H3. cbn in *. lia.
-    + cbn -[mem]. assert (Nat.eqb s0 s = false) by (apply Nat.eqb_neq; congruence). rewrite H. cbn. lia.
-  - intros s. unfold set_sub. destruct (Nat.eqb s s0) eqn:E; [apply Nat.eqb_eq in E; subst|]; apply H4.
-  - intros s. unfold set_sub. destruct (Nat.eqb s s0) eqn:E; [apply Nat.eqb_eq in E; subst|]; apply H5.
-  - intros s. unfold set_sub. destruct (Nat.eqb s s0) eqn:E; [apply Nat.eqb_eq in E; subst|]; apply H6.
-  - intros s. unfold set_sub. destruct (Nat.eqb s s0) eqn:E; [apply Nat.eqb_eq in E; subst|]; apply H7.
-  - intros s. unfold set_sub. destruct (Nat.eqb s s0) eqn:E; [apply Nat.eqb_eq in E; subst|]; apply H8.
-  - intros Hl s. unfold set_sub. destruct (Nat.eqb s s0) eqn:E; [apply Nat.eqb_eq in E; subst|]; apply H9; assumption.
+  - intros s. rewrite cnt_app, Hadd. at_sub s s0; cbn [gone subscribed]; intros Hg.
+    + rewrite Nat.eqb_refl. cbn [b2n]. lia.
+    + assert (E : Nat.eqb s0 s = false) by (apply Nat.eqb_neq; congruence). rewrite E. cbn [b2n]. specialize (H3 s Hg). lia.
+  - intros s. rewrite cnt_app, Hadd. at_sub s s0; cbn [subscribed].
+    + rewrite Nat.eqb_refl. cbn [b2n]. lia.
+    + assert (E : Nat.eqb s0 s = false) by (apply Nat.eqb_neq; congruence). rewrite E. cbn [b2n]. specialize (H3g s). lia.
+  - intros s. rewrite cnt_app. replace (cnt (is_rem s) [IAddSub s0]) with 0 by reflexivity.
+    at_sub s s0; cbn [cq loaded]; [specialize (H4 s0)|specialize (H4 s)]; lia.
+  - intros s. at_sub s s0; apply H5.
+  - intros s. at_sub s s0; apply H6.
+  - intros s. at_sub s s0; apply H7.
+  - intros s. at_sub s s0; apply H8.
+  - intros Hl s. at_sub s s0; apply H9; assumption.
+  - intros s. at_sub s s0; apply Hgl.
+  - intros s. at_sub s s0; apply Hcg.
+  - intros s. rewrite cnt_app. replace (cnt (is_rem s) [IAddSub s0]) with 0 by reflexivity.
+    at_sub s s0; cbn [gone]; intros Hg; [specialize (Hrm s0 Hg)|specialize (Hrm s Hg)]; lia.
+Qed.
+
+(* ---- general single-subscription update, possibly enqueueing the release of that subscription ---- *)
+Definition with_subs_q (σ : st) (q : list eitem) (f : nat -> sub) : st :=
+  {| truth := truth σ; answered := answered σ; qe := q; rs_loaded := rs_loaded σ; rs_val := rs_val σ;
+     rs_ver := rs_ver σ; rs_subs := rs_subs σ; subs := f |}.
+Definition with_subs (σ : st) (f : nat -> sub) : st := with_subs_q σ (qe σ) f.
+
+Lemma upd_inv σ s0 x' (k : bool) : Inv σ ->
+  subscribed x' = subscribed (subs σ s0) ->
+  cnt is_ld (cq x') + b2n (loaded x') + b2n k = cnt is_ld (cq (subs σ s0)) + b2n (loaded (subs σ s0)) ->
+  (loaded x' = true -> replay (sver x', sval x') (eq x' ++ evs (cq x')) = (rs_ver σ, rs_val σ)) ->
+  (forall e, In e (evs (cq x')) -> In e (evs (cq (subs σ s0)))) ->
+  (loaded x' = false -> eq x' = []) -> (flag x' = false -> eq x' = []) ->
+  (rs_loaded σ = false -> cq x' = []) ->
+  (gone (subs σ s0) = true -> gone x' = true) ->
+  (closed x' = true -> gone x' = true) ->
+  (gone x' = true -> loaded x' = false) ->
+  (k = true -> gone x' = true) ->
+  Inv (with_subs_q σ (if k then qe σ ++ [IRemSub s0] else qe σ) (set_sub (subs σ) s0 x')).
+Proof.
+  intros H Hs Hc Hr Hi He Hf H0 Hmono Hcg' Hgl' Hk. inv_fields H.
+  assert (Hx : forall s, s <> s0 -> set_sub (subs σ) s0 x' s = subs σ s) by (intros; apply set_sub_neq; assumption).
+  assert (Hy : set_sub (subs σ) s0 x' s0 = x') by apply set_sub_eq.
+  set (q' := if k then qe σ ++ [IRemSub s0] else qe σ).
+  assert (Qp : forall b, pend q' b = pend (qe σ) b).
+  { intros b. unfold q'. destruct k; [rewrite pend_app|]; reflexivity. }
+  assert (Qg : cnt is_get q' = cnt is_get (qe σ)).
+  { unfold q'. destruct k; [rewrite cnt_app; cbn; lia|reflexivity]. }
+  assert (Qa : forall s, cnt (is_add s) q' = cnt (is_add s) (qe σ)).
+  { intros s. unfold q'. destruct k; [rewrite cnt_app; cbn; lia|reflexivity]. }
+  assert (Qr0 : cnt (is_rem s0) q' = cnt (is_rem s0) (qe σ) + b2n k).
+  { unfold q'. destruct k; [rewrite cnt_app, cnt_cons; cbn [is_rem]; rewrite Nat.eqb_refl; reflexivity|cbn; lia]. }
+  assert (Qr : forall s, s <> s0 -> cnt (is_rem s) q' = cnt (is_rem s) (qe σ)).
+  { intros s Hne. unfold q'. destruct k; [|reflexivity]. rewrite cnt_app, cnt_cons. cbn [is_rem].
+    assert (E : Nat.eqb s0 s = false) by (apply Nat.eqb_neq; congruence). rewrite E. cbn. lia. }
+  assert (Hgf : gone x' = false -> gone (subs σ s0) = false).
+  { intros Hg. destruct (gone (subs σ s0)); [rewrite Hmono in Hg by reflexivity; discriminate|reflexivity]. }
+  clearbody q'.
+  constructor; cbn -[pend cnt replay evs mem set_sub]; auto.
+  - rewrite Qp. exact H1.
+  - rewrite Qg. exact H2.
+  - intros s. rewrite Qa. destruct (Nat.eq_dec s s0) as [->|Hne]; [rewrite Hy, Hs|rewrite Hx by assumption].
+    + intros Hg. apply H3, Hgf, Hg.
+    + apply H3.
+  - intros s. rewrite Qa. destruct (Nat.eq_dec s s0) as [->|Hne]; [rewrite Hy, Hs|rewrite Hx by assumption]; apply H3g.
+  - intros s. destruct (Nat.eq_dec s s0) as [->|Hne]; [rewrite Hy, Qr0|rewrite Hx, Qr by assumption].
+    + specialize (H4 s0). lia.
+    + apply H4.
+  - intros s. destruct (Nat.eq_dec s s0) as [->|Hne]; [rewrite Hy; exact Hr|rewrite Hx by assumption; apply H5].
+  - intros s e. destruct (Nat.eq_dec s s0) as [->|Hne]; [rewrite Hy|rewrite Hx by assumption].
+    + intros Hin. apply (H6 s0). apply Hi; assumption.
+    + apply H6.
+  - intros s. destruct (Nat.eq_dec s s0) as [->|Hne]; [rewrite Hy; exact He|rewrite Hx by assumption; apply H7].
+  - intros s. destruct (Nat.eq_dec s s0) as [->|Hne]; [rewrite Hy; exact Hf|rewrite Hx by assumption; apply H8].
+  - intros Hrl s. destruct (Nat.eq_dec s s0) as [->|Hne]; [rewrite Hy; auto|rewrite Hx by assumption; apply H9; assumption].
+  - intros s. destruct (Nat.eq_dec s s0) as [->|Hne]; [rewrite Hy; exact Hgl'|rewrite Hx by assumption; apply Hgl].
+  - intros s. destruct (Nat.eq_dec s s0) as [->|Hne]; [rewrite Hy; exact Hcg'|rewrite Hx by assumption; apply Hcg].
+  - intros s. destruct (Nat.eq_dec s s0) as [->|Hne]; [rewrite Hy, Qr0|rewrite Hx, Qr by assumption].
+    + intros Hg. destruct k; [rewrite Hk in Hg by reflexivity; discriminate|]. cbn [b2n]. rewrite (Hrm s0 (Hgf Hg)). reflexivity.
+    + apply Hrm.
 Qed.
 
 (* ---- subscription-local actions ---- *)
-Definition with_subs (σ : st) (f : nat -> sub) : st :=
-  {| truth := truth σ; answered := answered σ; qe := qe σ; rs_loaded := rs_loaded σ; rs_val := rs_val σ;
-     rs_ver := rs_ver σ; rs_subs := rs_subs σ; subs := f |}.
-
 Lemma local_inv σ s0 x' : Inv σ ->
   subscribed x' = subscribed (subs σ s0) -> loaded x' = loaded (subs σ s0) -> cq x' = cq (subs σ s0) ->
+  gone x' = gone (subs σ s0) -> closed x' = closed (subs σ s0) ->
   (loaded (subs σ s0) = true ->
      replay (sver x', sval x') (eq x' ++ evs (cq x')) =
      replay (sver (subs σ s0), sval (subs σ s0)) (eq (subs σ s0) ++ evs (cq (subs σ s0)))) ->
@@ -298,29 +490,24 @@ Lemma local_inv σ s0 x' : Inv σ ->
   (flag x' = false -> eq x' = []) ->
   Inv (with_subs σ (set_sub (subs σ) s0 x')).
 Proof.
-  intros H Hs Hl Hc Hr He Hf. inv_fields H.
-  assert (Hx : forall s, s <> s0 -> set_sub (subs σ) s0 x' s = subs σ s) by (intros; apply set_sub_neq; assumption).
-  assert (Hy : set_sub (subs σ) s0 x' s0 = x') by apply set_sub_eq.
-  constructor; cbn -[pend cnt replay evs mem set_sub]; auto.
-  - intros s. destruct (Nat.eq_dec s s0) as [->|Hne]; [rewrite Hy, Hs|rewrite Hx by assumption]; apply H3.
-  - intros s. destruct (Nat.eq_dec s s0) as [->|Hne]; [rewrite Hy, Hc, Hl|rewrite Hx by assumption]; apply H4.
-  - intros s. destruct (Nat.eq_dec s s0) as [->|Hne]; [rewrite Hy|rewrite Hx by assumption].
-    + intros Hld. rewrite Hl in Hld. rewrite Hr by assumption. apply H5; assumption.
-    + apply H5.
-  - intros s e. destruct (Nat.eq_dec s s0) as [->|Hne]; [rewrite Hy, Hc|rewrite Hx by assumption]; apply H6.
-  - intros s. destruct (Nat.eq_dec s s0) as [->|Hne]; [rewrite Hy|rewrite Hx by assumption].
-    + intros Hld. rewrite Hl in Hld. apply He; assumption.
-    + apply H7.
-  - intros s. destruct (Nat.eq_dec s s0) as [->|Hne]; [rewrite Hy|rewrite Hx by assumption].
-    + apply Hf.
-    + apply H8.
-  - intros Hrl s. destruct (Nat.eq_dec s s0) as [->|Hne]; [rewrite Hy, Hc|rewrite Hx by assumption]; apply H9; assumption.
+  intros H Hs Hl Hc Hg Hcl Hr He Hf. pose proof H as H'. inv_fields H'.
+  apply (upd_inv σ s0 x' false H); try assumption.
+  - rewrite Hc, Hl. cbn [b2n]. lia.
+  - rewrite Hl. intros Hld. rewrite Hr by assumption. apply H5; assumption.
+  - rewrite Hc. auto.
+  - rewrite Hl. exact He.
+  - rewrite Hc. intros Hrl. apply H9; assumption.
+  - rewrite Hg. auto.
+  - rewrite Hcl, Hg. apply Hcg.
+  - rewrite Hg, Hl. apply Hgl.
+  - discriminate.
 Qed.
 
 Lemma drain_fields x c :
   subscribed (drain x c) = subscribed x /\ loaded (drain x c) = loaded x /\ cq (drain x c) = cq x /\
   (forall E, replay (sver (drain x c), sval (drain x c)) (eq (drain x c) ++ E) = replay (sver x, sval x) (eq x ++ E)) /\
-  (eq x = [] -> eq (drain x c) = []) /\ (flag (drain x c) = false -> eq (drain x c) = []).
+  (eq x = [] -> eq (drain x c) = []) /\ (flag (drain x c) = false -> eq (drain x c) = []) /\
+  gone (drain x c) = gone x /\ closed (drain x c) = closed x.
 Proof.
   unfold drain. destruct (replay (sver x, sval x) (firstn c (eq x))) as [ver v] eqn:Er.
   cbn. repeat split; auto.
@@ -333,7 +520,7 @@ Lemma inv_unqueue σ s0 c : Inv σ -> Inv (step σ (Unqueue s0 c)).
 Proof.
   intros H. cbn [step].
   destruct (loaded (subs σ s0) && sent (subs σ s0) && flag (subs σ s0)) eqn:E; [|assumption].
-  destruct (drain_fields (subs σ s0) c) as (A & B & C & D & F & G).
+  destruct (drain_fields (subs σ s0) c) as (A & B & C & D & F & G & Gg & Gc).
   apply (local_inv σ s0 (drain (subs σ s0) c)); auto.
   - intros _. rewrite C. apply D.
   - intros Hl. apply F. destruct H. auto.
@@ -344,7 +531,7 @@ Proof.
   intros H. cbn [step].
   destruct (loaded (subs σ s0) && negb (sent (subs σ s0))) eqn:E; [|assumption].
   set (x1 := with_sub (subs σ s0) (sver (subs σ s0)) (sval (subs σ s0)) (flag (subs σ s0)) (eq (subs σ s0)) true).
-  destruct (drain_fields x1 c) as (A & B & C & D & F & G).
+  destruct (drain_fields x1 c) as (A & B & C & D & F & G & Gg & Gc).
   apply (local_inv σ s0 (drain x1 c)); auto.
   - intros _. rewrite C. apply D.
   - intros Hl. apply F. cbn. destruct H. auto.
@@ -359,73 +546,79 @@ Proof.
   - cbn. discriminate.
 Qed.
 
-(* ---- general single-subscription update ---- *)
-Lemma upd_inv σ s0 x' : Inv σ ->
-  subscribed x' = subscribed (subs σ s0) ->
-  cnt is_ld (cq x') + b2n (loaded x') = cnt is_ld (cq (subs σ s0)) + b2n (loaded (subs σ s0)) ->
-  (loaded x' = true -> replay (sver x', sval x') (eq x' ++ evs (cq x')) = (rs_ver σ, rs_val σ)) ->
-  (forall e, In e (evs (cq x')) -> In e (evs (cq (subs σ s0)))) ->
-  (loaded x' = false -> eq x' = []) -> (flag x' = false -> eq x' = []) ->
-  (rs_loaded σ = false -> cq x' = []) ->
-  Inv (with_subs σ (set_sub (subs σ) s0 x')).
+(* ---- Dispose ---- *)
+Lemma inv_dispose σ s0 cl : Inv σ -> Inv (step σ (Dispose s0 cl)).
 Proof.
-  intros H Hs Hc Hr Hi He Hf H0. inv_fields H.
-  assert (Hx : forall s, s <> s0 -> set_sub (subs σ) s0 x' s = subs σ s) by (intros; apply set_sub_neq; assumption).
-  assert (Hy : set_sub (subs σ) s0 x' s0 = x') by apply set_sub_eq.
-  constructor; cbn -[pend cnt replay evs mem set_sub]; auto.
-  - intros s. destruct (Nat.eq_dec s s0) as [->|Hne]; [rewrite Hy, Hs|rewrite Hx by assumption]; apply H3.
-  - intros s. destruct (Nat.eq_dec s s0) as [->|Hne]; [rewrite Hy, Hc|rewrite Hx by assumption]; apply H4.
-  - intros s. destruct (Nat.eq_dec s s0) as [->|Hne]; [rewrite Hy; exact Hr|rewrite Hx by assumption; apply H5].
-  - intros s e. destruct (Nat.eq_dec s s0) as [->|Hne]; [rewrite Hy|rewrite Hx by assumption].
-    + intros Hin. apply (H6 s0). apply Hi; assumption.
-    + apply H6.
-  - intros s. destruct (Nat.eq_dec s s0) as [->|Hne]; [rewrite Hy; exact He|rewrite Hx by assumption; apply H7].
-  - intros s. destruct (Nat.eq_dec s s0) as [->|Hne]; [rewrite Hy; exact Hf|rewrite Hx by assumption; apply H8].
-  - intros Hrl s. destruct (Nat.eq_dec s s0) as [->|Hne]; [rewrite Hy; auto|rewrite Hx by assumption; apply H9; assumption].
+  intros H. cbn [step]. pose proof H as H'. inv_fields H'.
+  destruct (gone (subs σ s0)) eqn:Eg.
+  - destruct cl; [|assumption].
+    apply (upd_inv σ s0 (dispose (subs σ s0) true) false H); cbn [dispose subscribed loaded cq eq gone closed b2n];
+      try reflexivity; try discriminate; auto.
+    rewrite (Hgl s0 Eg). cbn [b2n]. lia.
+  - apply (upd_inv σ s0 (dispose (subs σ s0) cl) (loaded (subs σ s0)) H); cbn [dispose subscribed loaded cq eq gone closed b2n];
+      try reflexivity; try discriminate; auto; try lia.
 Qed.
 
 Lemma inv_runc σ s0 : Inv σ -> Inv (step σ (RunC s0)).
 Proof.
   intros H. cbn [step]. pose proof H as H'. inv_fields H'.
   destruct (cq (subs σ s0)) as [|[|e] q] eqn:Ecq; [assumption| |].
-  - (* Loaded: snapshot *)
-    pose proof (H4 s0) as H4s. rewrite Ecq in H4s. unfold cnt in H4s. cbn [filter is_ld length] in H4s.
+  - (* Loaded *)
+    pose proof (H4 s0) as H4s. rewrite Ecq, cnt_cons in H4s. cbn [is_ld b2n] in H4s.
     pose proof (b2n_le (mem s0 (rs_subs σ) && rs_loaded σ)).
     assert (Hl0 : loaded (subs σ s0) = false) by (destruct (loaded (subs σ s0)); cbn in *; [lia|reflexivity]).
-    apply (upd_inv σ s0); [exact H|reflexivity| | | | | |]; cbn -[cnt replay evs].
-    + rewrite Ecq. unfold cnt. cbn [filter is_ld length]. rewrite Hl0. cbn. lia.
-    + intros _. apply replay_stale. intros e Hin. apply (H6 s0). rewrite Ecq. exact Hin.
-    + intros e Hin. rewrite Ecq. exact Hin.
-    + discriminate.
-    + discriminate.
-    + intros Hrl. specialize (H9 Hrl s0). rewrite Ecq in H9. discriminate.
+    destruct (gone (subs σ s0)) eqn:Eg.
+    + (* disposed meanwhile: release *)
+      apply (upd_inv σ s0 _ true H); cbn [subscribed loaded cq eq gone closed flag sver sval b2n];
+        try reflexivity; try discriminate; auto.
+      * rewrite Ecq, cnt_cons, Hl0. cbn [is_ld b2n]. lia.
+      * intros e Hin. rewrite Ecq. exact Hin.
+      * intros Hrl. specialize (H9 Hrl s0). rewrite Ecq in H9. discriminate.
+    + (* snapshot *)
+      apply (upd_inv σ s0 _ false H); cbn [subscribed loaded cq eq gone closed flag sver sval b2n];
+        try reflexivity; try discriminate.
+      * rewrite Ecq, cnt_cons, Hl0. cbn [is_ld b2n]. lia.
+      * intros _. apply replay_stale. intros e Hin. apply (H6 s0). rewrite Ecq. exact Hin.
+      * intros e Hin. rewrite Ecq. exact Hin.
+      * intros Hrl. specialize (H9 Hrl s0). rewrite Ecq in H9. discriminate.
+      * rewrite Eg. discriminate.
+      * intros Hc. rewrite (Hcg s0 Hc) in Eg. discriminate.
   - (* Event *)
     destruct (loaded (subs σ s0)) eqn:El; cbn [negb].
-    + destruct (flag (subs σ s0)) eqn:Ef.
-      * apply (upd_inv σ s0); [exact H|reflexivity| | | | | |]; cbn -[cnt replay evs].
-        -- rewrite Ecq, El. unfold cnt. cbn. reflexivity.
+    + assert (Eg : gone (subs σ s0) = false).
+      { destruct (gone (subs σ s0)) eqn:Eg; [|reflexivity]. rewrite (Hgl s0 Eg) in El. discriminate. }
+      destruct (flag (subs σ s0)) eqn:Ef.
+      * apply (upd_inv σ s0 _ false H); cbn [subscribed loaded cq eq gone closed flag sver sval b2n];
+          try reflexivity; try discriminate.
+        -- rewrite Ecq, cnt_cons, El. cbn [is_ld b2n]. lia.
         -- intros _. rewrite <- app_assoc. specialize (H5 s0 El). rewrite Ecq in H5. exact H5.
         -- intros e' Hin. rewrite Ecq. right. exact Hin.
-        -- discriminate.
-        -- discriminate.
         -- intros Hrl. specialize (H9 Hrl s0). rewrite Ecq in H9. discriminate.
+        -- auto.
+        -- apply Hcg.
+        -- rewrite Eg. discriminate.
       * destruct (proc (sver (subs σ s0), sval (subs σ s0)) e) as [ver v] eqn:Ep.
         pose proof (H8 s0 Ef) as Heq0.
-        apply (upd_inv σ s0); [exact H|reflexivity| | | | | |]; cbn -[cnt replay evs].
-        -- rewrite Ecq, El. unfold cnt. cbn. reflexivity.
+        apply (upd_inv σ s0 _ false H); cbn [subscribed loaded cq eq gone closed flag sver sval b2n];
+          try reflexivity; try discriminate.
+        -- rewrite Ecq, cnt_cons, El. cbn [is_ld b2n]. lia.
         -- intros _. specialize (H5 s0 El). rewrite Ecq, Heq0 in H5. rewrite Heq0.
            cbn [List.app] in *. unfold replay in *. cbn [evs flat_map List.app fold_left] in H5. rewrite Ep in H5. exact H5.
         -- intros e' Hin. rewrite Ecq. right. exact Hin.
-        -- discriminate.
         -- intros _. exact Heq0.
         -- intros Hrl. specialize (H9 Hrl s0). rewrite Ecq in H9. discriminate.
-    + apply (upd_inv σ s0); [exact H|reflexivity| | | | | |]; cbn -[cnt replay evs].
-      * rewrite Ecq, El. unfold cnt. cbn. reflexivity.
-      * discriminate.
+        -- auto.
+        -- apply Hcg.
+        -- rewrite Eg. discriminate.
+    + apply (upd_inv σ s0 _ false H); cbn [subscribed loaded cq eq gone closed flag sver sval b2n];
+        try reflexivity; try discriminate.
+      * rewrite Ecq, cnt_cons, El. cbn [is_ld b2n]. lia.
       * intros e' Hin. rewrite Ecq. right. exact Hin.
       * intros _. apply H7; assumption.
       * apply H8.
       * intros Hrl. specialize (H9 Hrl s0). rewrite Ecq in H9. discriminate.
+      * auto.
+      * apply Hcg.
 Qed.
 
 (* ---- cache worker ---- *)
@@ -433,11 +626,9 @@ Lemma push_all_fields f l i s :
   subscribed (push_all f l i s) = subscribed (f s) /\ loaded (push_all f l i s) = loaded (f s) /\
   sver (push_all f l i s) = sver (f s) /\ sval (push_all f l i s) = sval (f s) /\
   flag (push_all f l i s) = flag (f s) /\ eq (push_all f l i s) = eq (f s) /\
-  cq (push_all f l i s) = if mem s l then cq (f s) ++ [i] else cq (f s).
-Proof. unfold push_all. destruct (mem s l); cbn; repeat split; reflexivity. Qed.
-
-Lemma mem_cons s s0 l : mem s (s0 :: l) = Nat.eqb s s0 || mem s l.
-Proof. reflexivity. Qed.
+  cq (push_all f l i s) = (if mem s l && negb (closed (f s)) then cq (f s) ++ [i] else cq (f s)) /\
+  gone (push_all f l i s) = gone (f s) /\ closed (push_all f l i s) = closed (f s).
+Proof. unfold push_all. destruct (mem s l && negb (closed (f s))); cbn; repeat split; reflexivity. Qed.
 
 Lemma loaded_mem σ s : Inv σ -> loaded (subs σ s) = true -> mem s (rs_subs σ) = true /\ rs_loaded σ = true.
 Proof.
@@ -445,51 +636,81 @@ Proof.
   destruct (mem s (rs_subs σ)), (rs_loaded σ); cbn in *; try lia; split; reflexivity.
 Qed.
 
+Lemma loaded_open σ s : Inv σ -> loaded (subs σ s) = true -> closed (subs σ s) = false.
+Proof.
+  intros H Hl. destruct (closed (subs σ s)) eqn:Ec; [|reflexivity].
+  rewrite (igl _ H s (icg _ H s Ec)) in Hl. discriminate.
+Qed.
+
 Definition with_qe (σ : st) (q : list eitem) : st :=
   {| truth := truth σ; answered := answered σ; qe := q; rs_loaded := rs_loaded σ; rs_val := rs_val σ;
      rs_ver := rs_ver σ; rs_subs := rs_subs σ; subs := subs σ |}.
 
 Lemma pop_inv σ i q : Inv σ -> qe σ = i :: q -> is_get i = false -> (forall s, is_add s i = false) ->
+  (forall s, is_rem s i = false) ->
   pstep (if rs_loaded σ then Some (rs_val σ) else None) i = (if rs_loaded σ then Some (rs_val σ) else None) ->
   Inv (with_qe σ q).
 Proof.
-  intros H Eq Hg Ha Hp. inv_fields H. rewrite Eq in *.
+  intros H Eq Hg Ha Hr Hp. inv_fields H. rewrite Eq in *.
   constructor; cbn -[pend cnt replay evs mem]; auto.
   - unfold pend in *. cbn [fold_left] in H1. rewrite Hp in H1. exact H1.
-  - unfold cnt in *. cbn [filter] in H2. rewrite Hg in H2. exact H2.
-  - intros s. specialize (H3 s). unfold cnt in *. cbn [filter] in H3. rewrite Ha in H3. exact H3.
+  - rewrite cnt_cons, Hg in H2. exact H2.
+  - intros s Hgn. specialize (H3 s Hgn). rewrite cnt_cons, Ha in H3. exact H3.
+  - intros s. specialize (H3g s). rewrite cnt_cons, Ha in H3g. exact H3g.
+  - intros s. specialize (H4 s). rewrite cnt_cons, Hr in H4. exact H4.
+  - intros s Hgn. specialize (Hrm s Hgn). rewrite cnt_cons, Hr in Hrm. exact Hrm.
+Qed.
+
+(* an event applied to the loaded resource and fanned out to the subscribers *)
+Lemma fanout_inv σ i q e v' n' : Inv σ -> qe σ = i :: q -> rs_loaded σ = true ->
+  is_get i = false -> (forall s, is_add s i = false) -> (forall s, is_rem s i = false) ->
+  pstep (Some (rs_val σ)) i = Some v' ->
+  proc (rs_ver σ, rs_val σ) e = (n', v') -> rs_ver σ <= n' -> (e_upd e <> None -> e_ver e < n') ->
+  Inv {| truth := truth σ; answered := answered σ; qe := q; rs_loaded := true; rs_val := v'; rs_ver := n';
+         rs_subs := rs_subs σ; subs := push_all (subs σ) (rs_subs σ) (CEvent e) |}.
+Proof.
+  intros H Eq Erl Hget Hadd Hrem Hp Hproc Hle Hlt. pose proof H as H'. inv_fields H'.
+  pose proof (push_all_fields (subs σ) (rs_subs σ) (CEvent e)) as PF.
+  rewrite Eq, Erl in *.
+  constructor; cbn -[pend cnt replay evs mem push_all].
+  - unfold pend in *. cbn [fold_left] in H1. rewrite Hp in H1. exact H1.
+  - rewrite cnt_cons, Hget in H2. exact H2.
+  - intros s. destruct (PF s) as (A&_&_&_&_&_&_&Gg&_). rewrite A, Gg. intros Hgn.
+    specialize (H3 s Hgn). rewrite cnt_cons, Hadd in H3. exact H3.
+  - intros s. destruct (PF s) as (A&_). rewrite A. specialize (H3g s). rewrite cnt_cons, Hadd in H3g. exact H3g.
+  - intros s. destruct (PF s) as (_&B&_&_&_&_&G&_). rewrite B, G. specialize (H4 s). rewrite cnt_cons, Hrem in H4. cbn [b2n] in H4.
+    destruct (mem s (rs_subs σ) && negb (closed (subs σ s))); [rewrite cnt_app; change (cnt is_ld [CEvent e]) with 0|]; lia.
+  - intros s. destruct (PF s) as (_&B&C&D&_&F&G&_). rewrite B, C, D, F, G. intros Hl.
+    destruct (loaded_mem σ s H Hl) as [Hm _]. rewrite Hm, (loaded_open σ s H Hl). cbn [andb negb].
+    rewrite evs_app, app_assoc, replay_app, (H5 s Hl). cbn [evs flat_map List.app]. unfold replay. cbn [fold_left]. exact Hproc.
+  - intros s e0. destruct (PF s) as (_&_&_&_&_&_&G&_). rewrite G. destruct (mem s (rs_subs σ) && negb (closed (subs σ s))).
+    + rewrite evs_app. intros Hin Hne. apply in_app_or in Hin as [Hin|Hin].
+      * specialize (H6 s e0 Hin Hne). lia.
+      * cbn in Hin. destruct Hin as [<-|[]]. apply Hlt, Hne.
+    + intros Hin Hne. specialize (H6 s e0 Hin Hne). lia.
+  - intros s. destruct (PF s) as (_&B&_&_&_&F&_). rewrite B, F. apply H7.
+  - intros s. destruct (PF s) as (_&_&_&_&E&F&_). rewrite E, F. apply H8.
+  - discriminate.
+  - intros s. destruct (PF s) as (_&B&_&_&_&_&_&Gg&_). rewrite B, Gg. apply Hgl.
+  - intros s. destruct (PF s) as (_&_&_&_&_&_&_&Gg&Gc). rewrite Gg, Gc. apply Hcg.
+  - intros s. destruct (PF s) as (_&_&_&_&_&_&_&Gg&_). rewrite Gg. intros Hgn.
+    specialize (Hrm s Hgn). rewrite cnt_cons, Hrem in Hrm. exact Hrm.
+  - exact Hnd.
 Qed.
 
 Lemma inv_rune σ : Inv σ -> Inv (step σ RunE).
 Proof.
   intros H. cbn [step]. pose proof H as H'. inv_fields H'.
-  destruct (qe σ) as [|[u| |v|s0|n0] q] eqn:Eq; [assumption| | | | |].
+  destruct (qe σ) as [|[u| |v|s0|s0|n0] q] eqn:Eq; [assumption| | | | | |].
   - (* resource event *)
     destruct (rs_loaded σ) eqn:Erl.
     + destruct (norm u (rs_val σ)) as [u'|] eqn:En.
       * (* applied: new version, fan out *)
-        constructor; cbn -[pend cnt replay evs mem push_all].
-        -- unfold pend in *. cbn [fold_left pstep option_map] in H1. exact H1.
-        -- unfold cnt in *. cbn [filter is_get length] in H2. exact H2.
-        -- intros s. destruct (push_all_fields (subs σ) (rs_subs σ) (CEvent {| e_ver := rs_ver σ; e_upd := Some u' |}) s) as (A&_).
-           rewrite A. specialize (H3 s). unfold cnt in *. cbn [filter is_add length] in H3. exact H3.
-        -- intros s. destruct (push_all_fields (subs σ) (rs_subs σ) (CEvent {| e_ver := rs_ver σ; e_upd := Some u' |}) s) as (_&B&_&_&_&_&G).
-           rewrite B, G. specialize (H4 s). destruct (mem s (rs_subs σ)); [rewrite cnt_app; cbn|]; rewrite ?Nat.add_0_r; exact H4.
-        -- intros s. destruct (push_all_fields (subs σ) (rs_subs σ) (CEvent {| e_ver := rs_ver σ; e_upd := Some u' |}) s) as (_&B&C&D&_&F&G).
-           rewrite B, C, D, F, G. intros Hl. destruct (loaded_mem σ s H Hl) as [Hm _]. rewrite Hm.
-           rewrite evs_app, app_assoc, replay_app, (H5 s Hl). cbn [evs flat_map List.app]. unfold replay. cbn [fold_left proc e_ver e_upd].
-           rewrite Nat.eqb_refl. rewrite (norm_some _ _ _ En). reflexivity.
-        -- intros s e. destruct (push_all_fields (subs σ) (rs_subs σ) (CEvent {| e_ver := rs_ver σ; e_upd := Some u' |}) s) as (_&_&_&_&_&_&G).
-           rewrite G. destruct (mem s (rs_subs σ)).
-           ++ rewrite evs_app. intros Hin Hne. apply in_app_or in Hin as [Hin|Hin].
-              ** specialize (H6 s e Hin Hne). lia.
-              ** cbn in Hin. destruct Hin as [<-|[]]. cbn. lia.
-           ++ intros Hin Hne. specialize (H6 s e Hin Hne). lia.
-        -- intros s. destruct (push_all_fields (subs σ) (rs_subs σ) (CEvent {| e_ver := rs_ver σ; e_upd := Some u' |}) s) as (_&B&_&_&_&F&_).
-           rewrite B, F. apply H7.
-        -- intros s. destruct (push_all_fields (subs σ) (rs_subs σ) (CEvent {| e_ver := rs_ver σ; e_upd := Some u' |}) s) as (_&_&_&_&E&F&_).
-           rewrite E, F. apply H8.
-        -- discriminate.
+        apply (fanout_inv σ (IEvent u) q {| e_ver := rs_ver σ; e_upd := Some u' |} (app u (rs_val σ)) (S (rs_ver σ)) H Eq Erl);
+          try reflexivity.
+        -- cbn. rewrite Nat.eqb_refl, (norm_some _ _ _ En). reflexivity.
+        -- lia.
+        -- cbn. lia.
       * (* no actual change *)
         match goal with |- Inv ?X => replace X with (with_qe σ q) by (unfold with_qe; rewrite Erl; reflexivity) end.
         apply (pop_inv σ (IEvent u) q H Eq); try reflexivity.
@@ -499,89 +720,141 @@ Proof.
       apply (pop_inv σ (IEvent u) q H Eq); try reflexivity.
       rewrite Erl. reflexivity.
   - (* custom event *)
-    constructor; cbn -[pend cnt replay evs mem push_all].
-    + unfold pend in *. cbn [fold_left pstep] in H1. exact H1.
-    + unfold cnt in *. cbn [filter is_get length] in H2. exact H2.
-    + intros s. specialize (H3 s). unfold cnt in H3. cbn [filter is_add length] in H3.
-      destruct (rs_loaded σ); [|exact H3].
-      destruct (push_all_fields (subs σ) (rs_subs σ) (CEvent {| e_ver := rs_ver σ; e_upd := None |}) s) as (A&_). rewrite A. exact H3.
-    + intros s. specialize (H4 s). destruct (rs_loaded σ) eqn:Erl; [|exact H4].
-      destruct (push_all_fields (subs σ) (rs_subs σ) (CEvent {| e_ver := rs_ver σ; e_upd := None |}) s) as (_&B&_&_&_&_&G).
-      rewrite B, G. destruct (mem s (rs_subs σ)); [rewrite cnt_app; cbn|]; rewrite ?Nat.add_0_r; exact H4.
-    + intros s. destruct (rs_loaded σ) eqn:Erl; [|apply H5].
-      destruct (push_all_fields (subs σ) (rs_subs σ) (CEvent {| e_ver := rs_ver σ; e_upd := None |}) s) as (_&B&C&D&_&F&G).
-      rewrite B, C, D, F, G. intros Hl. destruct (mem s (rs_subs σ)); [|apply H5; assumption].
-      rewrite evs_app, app_assoc, replay_app, (H5 s Hl). cbn [evs flat_map List.app]. unfold replay. cbn [fold_left proc e_ver e_upd].
-      rewrite Nat.eqb_refl. reflexivity.
-    + intros s e. destruct (rs_loaded σ) eqn:Erl; [|apply H6].
-      destruct (push_all_fields (subs σ) (rs_subs σ) (CEvent {| e_ver := rs_ver σ; e_upd := None |}) s) as (_&_&_&_&_&_&G).
-      rewrite G. destruct (mem s (rs_subs σ)); [|apply H6].
-      rewrite evs_app. intros Hin Hne. apply in_app_or in Hin as [Hin|Hin]; [apply (H6 s e Hin Hne)|].
-      cbn in Hin. destruct Hin as [<-|[]]. cbn in Hne. congruence.
-    + intros s. destruct (rs_loaded σ) eqn:Erl; [|apply H7].
-      destruct (push_all_fields (subs σ) (rs_subs σ) (CEvent {| e_ver := rs_ver σ; e_upd := None |}) s) as (_&B&_&_&_&F&_).
-      rewrite B, F. apply H7.
-    + intros s. destruct (rs_loaded σ) eqn:Erl; [|apply H8].
-      destruct (push_all_fields (subs σ) (rs_subs σ) (CEvent {| e_ver := rs_ver σ; e_upd := None |}) s) as (_&_&_&_&E&F&_).
-      rewrite E, F. apply H8.
-    + intros Hrl. rewrite Hrl. apply H9; assumption.
+    destruct (rs_loaded σ) eqn:Erl.
+    + apply (fanout_inv σ ICustom q {| e_ver := rs_ver σ; e_upd := None |} (rs_val σ) (rs_ver σ) H Eq Erl);
+        try reflexivity.
+      * cbn. rewrite Nat.eqb_refl. reflexivity.
+      * cbn. congruence.
+    + match goal with |- Inv ?X => replace X with (with_qe σ q) by (unfold with_qe; rewrite Erl; reflexivity) end.
+      apply (pop_inv σ ICustom q H Eq); try reflexivity.
   - (* get response *)
-    unfold cnt in H2. cbn [filter is_get length] in H2.
+    rewrite cnt_cons in H2. cbn [is_get b2n] in H2.
     pose proof (b2n_le (answered σ)).
     assert (Erl : rs_loaded σ = false) by (destruct (rs_loaded σ); cbn in *; [lia|reflexivity]).
     rewrite Erl in *. cbn [b2n] in H2.
     assert (Hcq : forall s, cq (subs σ s) = []) by (apply H9; reflexivity).
-    assert (Hld : forall s, loaded (subs σ s) = false).
-    { intros s. specialize (H4 s). rewrite andb_false_r in H4. cbn in H4. destruct (loaded (subs σ s)); cbn in *; [lia|reflexivity]. }
-    constructor; cbn -[pend cnt replay evs mem push_all].
-    + unfold pend in *. cbn [fold_left pstep] in H1. exact H1.
-    + unfold cnt. cbn. lia.
-    + intros s. destruct (push_all_fields (subs σ) (rs_subs σ) CLoaded s) as (A&_). rewrite A.
-      specialize (H3 s). unfold cnt in *. cbn [filter is_add length] in H3. exact H3.
-    + intros s. destruct (push_all_fields (subs σ) (rs_subs σ) CLoaded s) as (_&B&_&_&_&_&G).
-      rewrite B, G, Hld, Hcq, andb_true_r. destruct (mem s (rs_subs σ)); reflexivity.
-    + intros s. destruct (push_all_fields (subs σ) (rs_subs σ) CLoaded s) as (_&B&_). rewrite B, Hld. discriminate.
-    + intros s e. destruct (push_all_fields (subs σ) (rs_subs σ) CLoaded s) as (_&_&_&_&_&_&G).
-      rewrite G, Hcq. destruct (mem s (rs_subs σ)); cbn; intros [].
-    + intros s. destruct (push_all_fields (subs σ) (rs_subs σ) CLoaded s) as (_&B&_&_&_&F&_). rewrite B, F. apply H7.
-    + intros s. destruct (push_all_fields (subs σ) (rs_subs σ) CLoaded s) as (_&_&_&_&E&F&_). rewrite E, F. apply H8.
+    assert (Hz : forall s, loaded (subs σ s) = false /\ cnt (is_rem s) q = 0).
+    { intros s. specialize (H4 s). rewrite andb_false_r, cnt_cons in H4. cbn [is_rem b2n] in H4.
+      destruct (loaded (subs σ s)); cbn [b2n] in *; split; try reflexivity; lia. }
+    pose proof (push_all_fields (subs σ) (rs_subs σ) CLoaded) as PF.
+    constructor; cbn -[pend cnt replay evs mem push_all refused].
+    + rewrite pend_app', pend_refused. unfold pend in *. cbn [fold_left pstep] in H1. exact H1.
+    + rewrite cnt_app, cnt_refused_0 by (intros; reflexivity). cbn [b2n]. lia.
+    + intros s. destruct (PF s) as (A&_&_&_&_&_&_&Gg&_). rewrite A, Gg. intros Hgn.
+      rewrite cnt_app, cnt_refused_0 by (intros; reflexivity).
+      specialize (H3 s Hgn). rewrite cnt_cons in H3. cbn [is_add b2n] in H3. lia.
+    + intros s. destruct (PF s) as (A&_). rewrite A.
+      rewrite cnt_app, cnt_refused_0 by (intros; reflexivity).
+      specialize (H3g s). rewrite cnt_cons in H3g. cbn [is_add b2n] in H3g. lia.
+    + intros s. destruct (PF s) as (_&B&_&_&_&_&G&_). rewrite B, G. destruct (Hz s) as [Hl Hr].
+      rewrite Hl, Hcq, cnt_app, Hr, (cnt_refused_rem _ _ _ Hnd).
+      destruct (mem s (rs_subs σ)), (closed (subs σ s)); reflexivity.
+    + intros s. destruct (PF s) as (_&B&_). rewrite B. destruct (Hz s) as [Hl _]. rewrite Hl. discriminate.
+    + intros s e. destruct (PF s) as (_&_&_&_&_&_&G&_).
+      rewrite G, Hcq. destruct (mem s (rs_subs σ) && negb (closed (subs σ s))); cbn; intros [].
+    + intros s. destruct (PF s) as (_&B&_&_&_&F&_). rewrite B, F. apply H7.
+    + intros s. destruct (PF s) as (_&_&_&_&E&F&_). rewrite E, F. apply H8.
     + discriminate.
+    + intros s. destruct (PF s) as (_&B&_&_&_&_&_&Gg&_). rewrite B, Gg. apply Hgl.
+    + intros s. destruct (PF s) as (_&_&_&_&_&_&_&Gg&Gc). rewrite Gg, Gc. apply Hcg.
+    + intros s. destruct (PF s) as (_&_&_&_&_&_&_&Gg&_). rewrite Gg. intros Hgn.
+      destruct (Hz s) as [_ Hr]. rewrite cnt_app, Hr, (cnt_refused_rem _ _ _ Hnd).
+      assert (Hc : closed (subs σ s) = false).
+      { destruct (closed (subs σ s)) eqn:Ec; [rewrite (Hcg s Ec) in Hgn; discriminate|reflexivity]. }
+      rewrite Hc, andb_false_r. reflexivity.
+    + exact Hnd.
   - (* add subscriber *)
-    pose proof (H3 s0) as H3s. unfold cnt in H3s. cbn [filter is_add length] in H3s. rewrite Nat.eqb_refl in H3s. cbn [length] in H3s.
+    pose proof (H3g s0) as H3s. rewrite cnt_cons in H3s. cbn [is_add] in H3s. rewrite Nat.eqb_refl in H3s. cbn [b2n] in H3s.
     pose proof (b2n_le (subscribed (subs σ s0))).
     assert (Hm0 : mem s0 (rs_subs σ) = false) by (destruct (mem s0 (rs_subs σ)); cbn in *; [lia|reflexivity]).
-    pose proof (H4 s0) as H4s. rewrite Hm0 in H4s. cbn in H4s.
+    pose proof (H4 s0) as H4s. rewrite Hm0, cnt_cons in H4s. cbn [andb b2n is_rem] in H4s.
     assert (Hl0 : loaded (subs σ s0) = false) by (destruct (loaded (subs σ s0)); cbn in *; [lia|reflexivity]).
     assert (Hc0 : cnt is_ld (cq (subs σ s0)) = 0) by lia.
-    assert (Hsub : forall s, subs (with_subs σ (if rs_loaded σ then set_sub (subs σ) s0 (push_c (subs σ s0) CLoaded) else subs σ)) s
-                   = if rs_loaded σ && Nat.eqb s s0 then push_c (subs σ s0) CLoaded else subs σ s).
-    { intros s. cbn. destruct (rs_loaded σ); cbn; [|reflexivity]. unfold set_sub. destruct (Nat.eqb_spec s s0); [subst|]; reflexivity. }
-    cbn in Hsub.
-    constructor; cbn -[pend cnt replay evs mem set_sub]; try (intros s; rewrite Hsub).
+    assert (Hr0 : cnt (is_rem s0) q = 0) by lia.
+    assert (Hnd' : NoDup (s0 :: rs_subs σ)).
+    { constructor; [|exact Hnd]. intros Hin. apply mem_In in Hin. congruence. }
+    assert (Pa : forall s, cnt (is_add s) q + b2n (Nat.eqb s s0 || mem s (rs_subs σ))
+                           = cnt (is_add s) (IAddSub s0 :: q) + b2n (mem s (rs_subs σ))).
+    { intros s. rewrite cnt_cons. cbn [is_add]. rewrite (Nat.eqb_sym s0 s). destruct (Nat.eqb_spec s s0) as [->|Hne].
+      - rewrite Hm0. cbn. lia.
+      - cbn. lia. }
+    assert (Pr : forall s, cnt (is_rem s) (IAddSub s0 :: q) = cnt (is_rem s) q) by (intros; rewrite cnt_cons; reflexivity).
+    assert (Pm : forall s, s <> s0 -> mem s (s0 :: rs_subs σ) = mem s (rs_subs σ)).
+    { intros s Hne. rewrite mem_cons. assert (E : Nat.eqb s s0 = false) by (apply Nat.eqb_neq; exact Hne). rewrite E. reflexivity. }
+    assert (Pm0 : mem s0 (s0 :: rs_subs σ) = true) by (rewrite mem_cons, Nat.eqb_refl; reflexivity).
+    destruct (rs_loaded σ) eqn:Erl; cbn [andb].
+    + destruct (closed (subs σ s0)) eqn:Ecl; cbn [negb].
+      * (* loaded, connection closing: release at once *)
+        pose proof (Hcg s0 Ecl) as Eg.
+        constructor; cbn -[pend cnt replay evs mem]; [| | | | |exact H5|exact H6|exact H7|exact H8|exact H9|exact Hgl|exact Hcg| |exact Hnd'].
+        -- rewrite pend_app. cbn [pstep]. unfold pend in *. cbn [fold_left pstep] in H1. exact H1.
+        -- rewrite cnt_app. rewrite cnt_cons in H2. cbn in *. lia.
+        -- intros s Hgn. rewrite cnt_app, mem_cons. specialize (H3 s Hgn). specialize (Pa s). cbn. lia.
+        -- intros s. rewrite cnt_app, mem_cons. specialize (H3g s). specialize (Pa s). cbn. lia.
+        -- intros s. rewrite cnt_app, cnt_cons. cbn [is_rem]. destruct (Nat.eq_dec s s0) as [->|Hne].
+           ++ rewrite Pm0, Nat.eqb_refl, Hc0, Hl0, Hr0. reflexivity.
+           ++ rewrite (Pm s Hne). assert (E : Nat.eqb s0 s = false) by (apply Nat.eqb_neq; congruence). rewrite E.
+              specialize (H4 s). rewrite Pr in H4. cbn. lia.
+        -- intros s Hgn. rewrite cnt_app, cnt_cons. cbn [is_rem]. destruct (Nat.eq_dec s s0) as [->|Hne]; [congruence|].
+           assert (E : Nat.eqb s0 s = false) by (apply Nat.eqb_neq; congruence). rewrite E.
+           specialize (Hrm s Hgn). rewrite Pr in Hrm. cbn. lia.
+      * (* loaded: send the snapshot *)
+        constructor; cbn -[pend cnt replay evs mem set_sub].
+        -- unfold pend in *. cbn [fold_left pstep] in H1. exact H1.
+        -- rewrite cnt_cons in H2. exact H2.
+        -- intros s. rewrite mem_cons. specialize (Pa s).
+           at_sub s s0; cbn [push_c gone subscribed]; intros Hgn; [specialize (H3 s0 Hgn)|specialize (H3 s Hgn)]; lia.
+        -- intros s. rewrite mem_cons. specialize (Pa s).
+           at_sub s s0; cbn [push_c subscribed]; [specialize (H3g s0)|specialize (H3g s)]; lia.
+        -- intros s. at_sub s s0.
+           ++ cbn [push_c cq loaded]. rewrite cnt_app, Pm0, Hc0, Hl0, Hr0. reflexivity.
+           ++ rewrite (Pm s Hne). specialize (H4 s). rewrite Pr in H4. exact H4.
+        -- intros s. at_sub s s0; [cbn [push_c loaded]; rewrite Hl0; discriminate|apply H5].
+        -- intros s e. at_sub s s0; [|apply H6].
+           cbn [push_c cq]. rewrite evs_app. cbn [evs flat_map]. rewrite app_nil_r. apply H6.
+        -- intros s. at_sub s s0; [cbn [push_c loaded eq]|]; apply H7.
+        -- intros s. at_sub s s0; [cbn [push_c flag eq]|]; apply H8.
+        -- discriminate.
+        -- intros s. at_sub s s0; [cbn [push_c loaded gone]|]; apply Hgl.
+        -- intros s. at_sub s s0; [cbn [push_c closed gone]|]; apply Hcg.
+        -- intros s. at_sub s s0; [cbn [push_c gone]|]; intros Hgn; [specialize (Hrm s0 Hgn)|specialize (Hrm s Hgn)];
+             rewrite Pr in Hrm; exact Hrm.
+        -- exact Hnd'.
+    + (* resource not loaded yet *)
+      constructor; cbn -[pend cnt replay evs mem]; [| | | | |exact H5|exact H6|exact H7|exact H8|exact H9|exact Hgl|exact Hcg| |exact Hnd'].
+      * unfold pend in *. cbn [fold_left pstep] in H1. exact H1.
+      * rewrite cnt_cons in H2. exact H2.
+      * intros s Hgn. rewrite mem_cons. specialize (H3 s Hgn). specialize (Pa s). lia.
+      * intros s. rewrite mem_cons. specialize (H3g s). specialize (Pa s). lia.
+      * intros s. rewrite andb_false_r. specialize (H4 s). rewrite andb_false_r, Pr in H4. exact H4.
+      * intros s Hgn. specialize (Hrm s Hgn). rewrite Pr in Hrm. exact Hrm.
+  - (* release of a subscriber *)
+    pose proof (H4 s0) as H4s. rewrite cnt_cons in H4s. cbn [is_rem] in H4s. rewrite Nat.eqb_refl in H4s. cbn [b2n] in H4s.
+    pose proof (b2n_le (mem s0 (rs_subs σ) && rs_loaded σ)).
+    assert (Hl0 : loaded (subs σ s0) = false) by (destruct (loaded (subs σ s0)); cbn in *; [lia|reflexivity]).
+    assert (Hc0 : cnt is_ld (cq (subs σ s0)) = 0) by lia.
+    assert (Hr0 : cnt (is_rem s0) q = 0) by lia.
+    assert (Eg : gone (subs σ s0) = true).
+    { destruct (gone (subs σ s0)) eqn:Eg; [reflexivity|]. specialize (Hrm s0 Eg). rewrite cnt_cons in Hrm.
+      cbn [is_rem] in Hrm. rewrite Nat.eqb_refl in Hrm. cbn in Hrm. lia. }
+    assert (Pa : forall s, cnt (is_add s) (IRemSub s0 :: q) = cnt (is_add s) q) by (intros; rewrite cnt_cons; reflexivity).
+    assert (Pr : forall s, s <> s0 -> cnt (is_rem s) (IRemSub s0 :: q) = cnt (is_rem s) q).
+    { intros s Hne. rewrite cnt_cons. cbn [is_rem]. assert (E : Nat.eqb s0 s = false) by (apply Nat.eqb_neq; congruence).
+      rewrite E. reflexivity. }
+    constructor; cbn -[pend cnt replay evs mem remove_sub]; [| | | | |exact H5|exact H6|exact H7|exact H8|exact H9|exact Hgl|exact Hcg| |].
     + unfold pend in *. cbn [fold_left pstep] in H1. exact H1.
-    + unfold cnt in *. cbn [filter is_get length] in H2. exact H2.
-    + rewrite mem_cons. specialize (H3 s). unfold cnt in *. cbn [filter is_add length] in H3.
-      destruct (Nat.eqb_spec s s0) as [->|Hne].
-      * rewrite Nat.eqb_refl in *. cbn [length] in *. rewrite Hm0 in *. rewrite andb_true_r. destruct (rs_loaded σ); cbn in *; lia.
-      * assert (E : Nat.eqb s0 s = false) by (apply Nat.eqb_neq; congruence). rewrite E in H3. rewrite andb_false_r. cbn. exact H3.
-    + rewrite mem_cons. destruct (Nat.eqb_spec s s0) as [->|Hne].
-      * rewrite andb_true_r. cbn [orb]. destruct (rs_loaded σ) eqn:Erl; cbn [andb].
-        -- cbn [push_c cq loaded]. rewrite cnt_app, Hc0, Hl0. reflexivity.
-        -- rewrite Hc0, Hl0. reflexivity.
-      * rewrite andb_false_r. cbn [orb]. apply H4.
-    + destruct (Nat.eqb_spec s s0) as [->|Hne].
-      * rewrite andb_true_r. destruct (rs_loaded σ); cbn; rewrite Hl0; discriminate.
-      * rewrite andb_false_r. apply H5.
-    + intros e. destruct (Nat.eqb_spec s s0) as [->|Hne].
-      * rewrite andb_true_r. destruct (rs_loaded σ); [|apply H6]. cbn [push_c cq]. rewrite evs_app. cbn [evs flat_map]. rewrite app_nil_r. apply H6.
-      * rewrite andb_false_r. apply H6.
-    + destruct (Nat.eqb_spec s s0) as [->|Hne].
-      * rewrite andb_true_r. destruct (rs_loaded σ); cbn; apply H7.
-      * rewrite andb_false_r. apply H7.
-    + destruct (Nat.eqb_spec s s0) as [->|Hne].
-      * rewrite andb_true_r. destruct (rs_loaded σ); cbn; apply H8.
-      * rewrite andb_false_r. apply H8.
-    + intros Hrl s. rewrite Hsub, Hrl. cbn. apply H9; assumption.
+    + rewrite cnt_cons in H2. exact H2.
+    + intros s Hgn. destruct (Nat.eq_dec s s0) as [->|Hne]; [congruence|].
+      rewrite (mem_remove_other _ _ _ Hne). specialize (H3 s Hgn). rewrite Pa in H3. exact H3.
+    + intros s. specialize (H3g s). rewrite Pa in H3g. destruct (Nat.eq_dec s s0) as [->|Hne].
+      * rewrite mem_remove_same. cbn [b2n]. lia.
+      * rewrite (mem_remove_other _ _ _ Hne). exact H3g.
+    + intros s. destruct (Nat.eq_dec s s0) as [->|Hne].
+      * rewrite mem_remove_same, Hc0, Hl0, Hr0. reflexivity.
+      * rewrite (mem_remove_other _ _ _ Hne). specialize (H4 s). rewrite (Pr s Hne) in H4. exact H4.
+    + intros s Hgn. destruct (Nat.eq_dec s s0) as [->|Hne]; [congruence|].
+      specialize (Hrm s Hgn). rewrite (Pr s Hne) in Hrm. exact Hrm.
+    + apply NoDup_remove, Hnd.
   - (* a task that does not touch the resource *)
     apply (pop_inv σ (INop n0) q H Eq); reflexivity.
 Qed.
@@ -589,7 +862,7 @@ Qed.
 Theorem step_inv σ a : Inv σ -> Inv (step σ a).
 Proof.
   destruct a; [apply inv_svc_update|apply inv_svc_custom|apply inv_svc_answer|apply inv_svc_nop|apply inv_subscribe
-              |apply inv_rune|apply inv_runc|apply inv_respond|apply inv_unqueue|apply inv_startqueue].
+              |apply inv_dispose|apply inv_rune|apply inv_runc|apply inv_respond|apply inv_unqueue|apply inv_startqueue].
 Qed.
 
 Theorem run_inv t acts : Inv (run t acts).
@@ -603,20 +876,20 @@ Qed.
 Definition quiescent (σ : st) : Prop :=
   answered σ = true /\ qe σ = [] /\ forall s, cq (subs σ s) = [] /\ eq (subs σ s) = [].
 
-(* Every reachable quiescent state: each subscribed connection has loaded the resource, and the copy it
-   holds (the snapshot it was or will be sent, updated by every event delivered since) IS the state the
-   service last announced; the cache holds the same value. For every schedule, any number of subscribers. *)
+(* Every reachable quiescent state: each subscribed connection that was not disposed has loaded the resource,
+   and the copy it holds (the snapshot it was or will be sent, updated by every event delivered since) IS the
+   state the service last announced; the cache holds the same value. For every schedule, any number of subscribers. *)
 Theorem single_resource_convergence : forall t acts s,
   let σ := run t acts in
-  quiescent σ -> subscribed (subs σ s) = true ->
+  quiescent σ -> subscribed (subs σ s) = true -> gone (subs σ s) = false ->
   loaded (subs σ s) = true /\ sval (subs σ s) = truth σ /\ rs_val σ = truth σ.
 Proof.
-  intros t acts s σ (Ha & Hq & Hs) Hsub.
+  intros t acts s σ (Ha & Hq & Hs) Hsub Hgn.
   pose proof (run_inv t acts) as H. fold σ in H. inv_fields H.
   rewrite Hq, Ha in *. cbn in H1, H2.
   assert (Erl : rs_loaded σ = true) by (destruct (rs_loaded σ); [reflexivity|cbn in *; discriminate]).
   rewrite Erl in *. cbn in H1. injection H1 as H1.
-  specialize (H3 s). rewrite Hsub in H3. cbn in H3.
+  specialize (H3 s Hgn). rewrite Hsub in H3. cbn in H3.
   assert (Hm : mem s (rs_subs σ) = true) by (destruct (mem s (rs_subs σ)); [reflexivity|cbn in *; discriminate]).
   specialize (H4 s). destruct (Hs s) as [Hc He]. rewrite Hc, Hm in H4. cbn in H4.
   assert (Hl : loaded (subs σ s) = true) by (destruct (loaded (subs σ s)); [reflexivity|cbn in *; discriminate]).
@@ -624,9 +897,27 @@ Proof.
   repeat split; congruence.
 Qed.
 
+(* Nothing is left behind for a disposed subscription (failed request, access denied, closed connection): once the queues
+   are drained and the get request answered, the cache no longer lists it as a subscriber and it holds nothing. *)
+Theorem disposed_released : forall t acts s,
+  let σ := run t acts in
+  quiescent σ -> gone (subs σ s) = true ->
+  mem s (rs_subs σ) = false /\ loaded (subs σ s) = false /\ eq (subs σ s) = [].
+Proof.
+  intros t acts s σ (Ha & Hq & Hs) Hgn.
+  pose proof (run_inv t acts) as H. fold σ in H. inv_fields H.
+  rewrite Hq, Ha in *. cbn in H2.
+  assert (Erl : rs_loaded σ = true) by (destruct (rs_loaded σ); [reflexivity|cbn in *; discriminate]).
+  destruct (Hs s) as [Hc He]. pose proof (Hgl s Hgn) as Hl.
+  specialize (H4 s). rewrite Hc, Hl, Erl in H4. cbn in H4.
+  repeat split; auto.
+  destruct (mem s (rs_subs σ)); [cbn in H4; discriminate|reflexivity].
+Qed.
+
 End Conv.
 
 Print Assumptions single_resource_convergence.
+Print Assumptions disposed_released.
 
 (* non-vacuity: a concrete schedule that reaches a quiescent state with two subscribers, an update that
    lands before one snapshot and after the other, and a queued event drained after the response *)
@@ -638,3 +929,56 @@ Eval vm_compute in (@truth nat nat sigma_ex, @rs_val nat nat sigma_ex, @rs_ver n
                     @sval nat nat (@subs nat nat sigma_ex 1), @sval nat nat (@subs nat nat sigma_ex 2),
                     @qe nat nat sigma_ex, @cq nat nat (@subs nat nat sigma_ex 1), @cq nat nat (@subs nat nat sigma_ex 2),
                     @eq nat nat (@subs nat nat sigma_ex 1), @eq nat nat (@subs nat nat sigma_ex 2)).
+
+(* non-vacuity with disposal: subscriber 1 is disposed before the resource is loaded (released when its Loaded task runs),
+   subscriber 2's connection closes while it is loaded (released by Dispose), subscriber 3 survives and converges *)
+Definition acts_ex2 : list (action nat) :=
+  [Subscribe nat 1; Subscribe nat 2; Subscribe nat 3; RunE nat; RunE nat; RunE nat; Dispose nat 1 false;
+   SvcAnswer nat; RunE nat; RunC nat 1; RunC nat 2; RunC nat 3; Respond nat 2 0; Respond nat 3 0;
+   SvcUpdate nat 5; RunE nat; RunE nat; RunC nat 2; RunC nat 3; Dispose nat 2 true; RunE nat].
+Definition sigma_ex2 := run nat nat (fun u v => u + v) (fun u v => if Nat.eqb u 0 then None else Some u) 0 100 acts_ex2.
+Eval vm_compute in (@rs_subs nat nat sigma_ex2, @truth nat nat sigma_ex2, @rs_val nat nat sigma_ex2,
+                    @sval nat nat (@subs nat nat sigma_ex2 3), @loaded nat nat (@subs nat nat sigma_ex2 3),
+                    (@gone nat nat (@subs nat nat sigma_ex2 1), @gone nat nat (@subs nat nat sigma_ex2 2),
+                     @gone nat nat (@subs nat nat sigma_ex2 3)),
+                    (@closed nat nat (@subs nat nat sigma_ex2 1), @closed nat nat (@subs nat nat sigma_ex2 2)),
+                    @qe nat nat sigma_ex2).
+Example ex2_subs : @rs_subs nat nat sigma_ex2 = [3].
+Proof. vm_compute. reflexivity. Qed.
+Lemma ex2_quiescent : quiescent nat nat sigma_ex2.
+Proof.
+  repeat split; try (vm_compute; reflexivity);
+    destruct s as [|[|[|[|s]]]]; vm_compute; reflexivity.
+Qed.
+Example ex2_gone1 : @gone nat nat (@subs nat nat sigma_ex2 1) = true /\ @subscribed nat nat (@subs nat nat sigma_ex2 1) = true.
+Proof. vm_compute. repeat split. Qed.
+Example ex2_gone2 : @gone nat nat (@subs nat nat sigma_ex2 2) = true /\ @closed nat nat (@subs nat nat sigma_ex2 2) = true.
+Proof. vm_compute. repeat split. Qed.
+Example ex2_live3 : @subscribed nat nat (@subs nat nat sigma_ex2 3) = true /\ @gone nat nat (@subs nat nat sigma_ex2 3) = false.
+Proof. vm_compute. repeat split. Qed.
+
+(* both theorems instantiated on this run (run is made opaque only to keep the elaborator from evaluating it) *)
+Lemma ex_norm_none : forall u v : nat, (if Nat.eqb u 0 then None else Some u) = None -> u + v = v.
+Proof. intros u v. destruct (Nat.eqb_spec u 0) as [->|]; [reflexivity|discriminate]. Qed.
+Lemma ex_norm_some : forall u v u' : nat, (if Nat.eqb u 0 then None else Some u) = Some u' -> u' + v = u + v.
+Proof. intros u v u'. destruct (Nat.eqb u 0); [discriminate|]. intros E. injection E as <-. reflexivity. Qed.
+Opaque run.
+Lemma ex2_converged3 : @loaded nat nat (@subs nat nat sigma_ex2 3) = true /\
+  @sval nat nat (@subs nat nat sigma_ex2 3) = @truth nat nat sigma_ex2 /\ @rs_val nat nat sigma_ex2 = @truth nat nat sigma_ex2.
+Proof.
+  exact (single_resource_convergence nat nat (fun u v => u + v) (fun u v => if Nat.eqb u 0 then None else Some u) 0
+           ex_norm_none ex_norm_some 100 acts_ex2 3 ex2_quiescent (proj1 ex2_live3) (proj2 ex2_live3)).
+Qed.
+Lemma ex2_released1 : mem 1 (@rs_subs nat nat sigma_ex2) = false /\
+  @loaded nat nat (@subs nat nat sigma_ex2 1) = false /\ @eq nat nat (@subs nat nat sigma_ex2 1) = [].
+Proof.
+  exact (disposed_released nat nat (fun u v => u + v) (fun u v => if Nat.eqb u 0 then None else Some u) 0
+           ex_norm_none ex_norm_some 100 acts_ex2 1 ex2_quiescent (proj1 ex2_gone1)).
+Qed.
+Lemma ex2_released2 : mem 2 (@rs_subs nat nat sigma_ex2) = false /\
+  @loaded nat nat (@subs nat nat sigma_ex2 2) = false /\ @eq nat nat (@subs nat nat sigma_ex2 2) = [].
+Proof.
+  exact (disposed_released nat nat (fun u v => u + v) (fun u v => if Nat.eqb u 0 then None else Some u) 0
+           ex_norm_none ex_norm_some 100 acts_ex2 2 ex2_quiescent (proj1 ex2_gone2)).
+Qed.
+Transparent run.
